@@ -63,6 +63,8 @@ type c14Cli struct {
 	// ShortBody: the server announces Content-Length 20, sends 10 bytes and closes the connection: a failed exchange,
 	// whatever -max-body and -keepalive say
 	ShortBody bool `json:",omitempty"`
+	// ChunkedResp: the server frames its responses in chunks, so their length is not known in advance
+	ChunkedResp bool `json:",omitempty"`
 }
 
 const wireBody = "0123456789"
@@ -74,11 +76,12 @@ type wireReq struct {
 }
 
 type wireServer struct {
-	ln    net.Listener
-	mu    sync.Mutex
-	reqs  []wireReq
-	wg    sync.WaitGroup
-	short bool // announce 20 body bytes, send 10, close
+	ln      net.Listener
+	mu      sync.Mutex
+	reqs    []wireReq
+	wg      sync.WaitGroup
+	short   bool // announce 20 body bytes, send 10, close
+	chunked bool // responses framed in chunks (no Content-Length)
 }
 
 func newWireServer() (*wireServer, error) {
@@ -172,6 +175,11 @@ func (s *wireServer) serve(c net.Conn) {
 				resp = "HTTP/1.1 302 Found\r\nLocation: " + loc + "\r\nContent-Length: 10\r\nX-Served: redirect\r\n\r\n" + wireBody
 			}
 		}
+		if s.chunked {
+			// a response of unknown length: chunked framing instead of a Content-Length
+			resp = strings.Replace(resp, "Content-Length: 10\r\n", "Transfer-Encoding: chunked\r\n", 1)
+			resp = strings.TrimSuffix(resp, wireBody) + "4\r\n0123\r\n6\r\n456789\r\n0\r\n\r\n"
+		}
 		if s.short {
 			c.Write([]byte(strings.Replace(resp, "Content-Length: 10", "Content-Length: 20", 1)))
 			return
@@ -196,6 +204,7 @@ func runC14Cli(c c14Cli) error {
 	}
 	defer srv.close()
 	srv.short = c.ShortBody
+	srv.chunked = c.ChunkedResp
 	base := "http://" + srv.ln.Addr().String()
 	if c.ConnectTo {
 		base = "http://192.0.2.1:8181"
@@ -468,6 +477,7 @@ func TestC14Cli(t *testing.T) {
 		}
 		c.KeepAliveOff = rapid.IntRange(0, 2).Draw(t, "keepaliveoff") == 0
 		c.ShortBody = rapid.IntRange(0, 4).Draw(t, "shortbody") == 0
+		c.ChunkedResp = !c.ShortBody && rapid.IntRange(0, 2).Draw(t, "chunkedresp") == 0
 		c.ConnectTo = rapid.IntRange(0, 2).Draw(t, "connectto") == 0
 		if rapid.IntRange(0, 2).Draw(t, "proxyhdrs") == 0 {
 			c.ProxyHeaders = []c14CliKV{{"X-Proxy-Only", "p1"}}
